@@ -270,6 +270,8 @@ pub fn generate(rng: &mut Rng, allow_tasks: bool) -> Workload {
     let mut final_top = None;
     let mut error_prefix = None;
     let mut error_line = None;
+    let mut error_file = None;
+    let mut extra_files: Vec<(String, String)> = vec![];
     match rng.below(9) {
         0 => {
             let (a, b) = (rng.range(0, 1000) as i64, rng.range(0, 1000) as i64);
@@ -304,13 +306,25 @@ pub fn generate(rng: &mut Rng, allow_tasks: bool) -> Workload {
                 7 => ("9223372036854775807 + x", "error: integer overflow/underflow", "overflow"),
                 _ => ("x % (x - x)", "error: division by zero", "mod0"),
             };
-            let line = src.matches('\n').count() as u32 + 2;
-            src.push_str(&format!(
-                "fn level3(x: int) -> int {{\n    {body}\n}}\nfn level2(x: int) -> int {{\n    level3(x) + 1\n}}\nfn level1(x: int) -> int {{\n    level2(x) + 1\n}}\nlevel1(41)\n"
-            ));
+            let levels = format!(
+                "fn level3(x: int) -> int {{\n    {body}\n}}\nfn level2(x: int) -> int {{\n    level3(x) + 1\n}}\nfn level1(x: int) -> int {{\n    level2(x) + 1\n}}\n"
+            );
+            if rng.chance(1, 3) {
+                // the failing functions live in a second file: the innermost frame is there
+                extra_files.push(("util.abra".to_string(), format!("// helpers\n{levels}")));
+                src = src.replacen("use simhost\n", "use simhost\nuse util\n", 1);
+                src.push_str("level1(41)\n");
+                error_line = Some(3);
+                error_file = Some("util.abra".to_string());
+                descr.push(format!("error:{what}:in-imported-file"));
+            } else {
+                let line = src.matches('\n').count() as u32 + 2;
+                src.push_str(&levels);
+                src.push_str("level1(41)\n");
+                error_line = Some(line);
+                descr.push(format!("error:{what}"));
+            }
             error_prefix = Some(prefix.to_string());
-            error_line = Some(line);
-            descr.push(format!("error:{what}"));
         }
     }
     let mut w = Workload::new("status", descr.join(" "), src);
@@ -321,5 +335,7 @@ pub fn generate(rng: &mut Rng, allow_tasks: bool) -> Workload {
     w.expect.final_top = final_top;
     w.expect.error_prefix = error_prefix;
     w.expect.error_line = error_line;
+    w.expect.error_file = error_file;
+    w.extra_files = extra_files;
     w
 }
